@@ -170,6 +170,24 @@ def main():
     if sd is None:
         engine_errors.append(f'stand-in produced no output: {err[-800:]}')
         sd = {'stats': {}, 'failures': []}
+    # CPython cross-check of the verifier's translation on the calls the stand-in recorded (DESIGN 2.10)
+    cc = None
+    if sd.get('records'):
+        cc_out = f'{EV}/.cc_{prop}.json'
+        rc, out, err = sh([sys.executable, '-m', 'pyvc.crosscheck', standin_out, cc_out], timeout=1500,
+                          env={'PYVC_CC_FULL_MS': '2500' if tier == 'quick' else '20000'})
+        cc = load_json(cc_out, None)
+        if cc is None:
+            engine_errors.append(f'cross-check produced no output: {(err or out)[-600:]}')
+        else:
+            for fid, outs in cc['results'].items():
+                for o in outs:
+                    if o['verdict'] == 'DISAGREE':
+                        engine_errors.append(f'CPython cross-check: the translation of {fid} disagrees with CPython on {json.dumps(o, default=str)[:600]}')
+        try:
+            os.unlink(cc_out)
+        except OSError:
+            pass
     try:
         os.unlink(standin_out)
     except OSError:
@@ -306,7 +324,12 @@ def main():
         'obligations': n_obl, 'discharged': n_proved + n_known,
         'discharged_on_complement_of_known_findings': n_known,
         'checker_cmd': f'python3-vt check.py {prop} --tier {tier}',
-        'trusted_base': sorted(assumptions) + ['pyvc (home-grown VC generator, cross-checked against CPython by selftest/)',
+        'cpython_cross_check': ({'what': 'recorded CPython calls of the functions under contract replayed through the translation: facts of the '
+                                         'concrete heap /\\ path condition ==> symbolic return value == CPython return value, with a canary per record',
+                                 'functions': cc.get('functions'), **cc['summary'],
+                                 'not_agreeing': [{'function': f, **{k: o.get(k) for k in ('verdict', 'why', 'detail')}} for f, outs in cc['results'].items()
+                                                  for o in outs if o['verdict'] != 'agree'][:40]} if cc else None),
+        'trusted_base': sorted(assumptions) + ['pyvc (home-grown VC generator; its translation is cross-checked against CPython on recorded calls: coverage.cpython_cross_check)',
                                                'z3 5.1.0 (in-process), cvc5 1.0.3 and z3 4.8.12 (CLI, on z3 unknowns)'],
         'functions_under_contract': fn_rows,
         'backends': backends, 'solver_seconds': round(solver_time, 2),
